@@ -1,5 +1,6 @@
 CONSTANT W = 32
 CONSTANT PMax = 65535
+CONSTANT RefOf <- RefTok
 SPECIFICATION Spec
 POSTCONDITION Post_
 CHECK_DEADLOCK FALSE
